@@ -27,7 +27,7 @@ func (b *Base85Encoder) Code() byte {
 func (b *Base85Encoder) Encode(data []byte) []byte {
 	l := ascii85.MaxEncodedLen(len(data))
 	dst := make([]byte, l)
-	ascii85.Encode(dst, data)
+	n := ascii85.Encode(dst, data)
 	for k, b := range dst {
 		if b == '.' {
 			dst[k] = 'v'
@@ -37,7 +37,7 @@ func (b *Base85Encoder) Encode(data []byte) []byte {
 			dst[k] = 'x'
 		}
 	}
-	return dst
+	return dst[:n]
 }
 
 func (b *Base85Encoder) Decode(data []byte) ([]byte, error) {
